@@ -105,7 +105,7 @@ func init() {
 		Rule:   "cases = every transition from every reachable state with <= 4 seats (thorough 5) + rapid histories; at every Next(): button = first seat able to play clockwise after the old dealer, refusal exactly with the insufficient-players error; non-trivial = Next() where the old dealer can no longer play or an occupied non-playable seat lies between old and new dealer",
 		Stages: []stage{reach, hist(600000, 15000000)}}
 	plans["C18"] = plan{Level: "exploration", Assume: append([]string{"the goroutine schedule of the race stage is not owned by the harness (stress + race detector)"}, seatAssume...),
-		Rule:   "cases = every transition from every reachable state with <= 4 seats (thorough 5) + rapid histories with out-of-range ids (occupancy model, recover() around every call) + concurrent-join cases under the race detector (drawn table size, 2..32 goroutines, specific/any targets, pre-seated players) + join/leave/sit-in/sit-out histories with out-of-range ids, optionally followed by racing joins, on table.Table and match.Table (what these tables publish against the occupancy model, under the race detector); non-trivial = history with a failed join and a leave; race case with more goroutines than free seats",
+		Rule:   "cases = every transition from every reachable state with <= 4 seats (thorough 5) + rapid histories with out-of-range ids (occupancy model, recover() around every call) + concurrent-join cases under the race detector (drawn table size, 2..32 goroutines, specific/any targets, pre-seated players; in a third of the cases leaves race with the joins: per seat players before + joins - leaves is 0 or 1 and what the seat list shows) + join/leave/sit-in/sit-out histories with out-of-range ids, optionally followed by racing joins, on table.Table and match.Table (what these tables publish against the occupancy model, under the race detector); non-trivial = history with a failed join and a leave; race case with more goroutines than free seats",
 		Stages: []stage{reach, hist(600000, 15000000), {Name: "join-race", Harness: "seats", Test: "TestJoinRace", Mode: "race", Race: true, Quick: 6000, Thorough: 150000},
 			{Name: "table-glue", Harness: "seats", Test: "TestGlueOccupancy", Mode: "race", Race: true, Quick: 20000, Thorough: 500000}}}
 
@@ -125,6 +125,6 @@ func init() {
 		Rule:   "cases = the complete settings grid (2<=min<=max<=10, 0..6*max registrants, all at once before the start / one by one / in batches of 3 / of max after it; 3 repetitions each because of map order) + tournament histories; capacity and start conditions are checked inside the callbacks, occupancy plus outstanding demand (Required) against the capacity after every call; non-trivial = settings other than 9/6 with >= 2 tables opened",
 		Stages: []stage{grid, mh(120000, 4000000)}}
 	plans["C20"] = plan{Level: "exploration", Assume: mttAssume,
-		Rule:   "cases = from the end state of every generated history (and every grid point) sweeps of SyncState(t,0) over all tables in a drawn order, instructions carried out, until a sweep asks for nothing; bound max(20, 2*tables+10) sweeps, and never five sweeps in a row that move players without changing how full any table or the queue is; histories contain stretches of 1..40 hands without a bust-out; non-trivial = settling run with at least one move; classes sweeps-to-settle:N = distribution of the number of sweeps needed",
+		Rule:   "cases = from the end state of every generated history (and every grid point, incl. large fields of 7..112 full tables) sweeps of SyncState(t,0) over all tables in a drawn order, instructions carried out, until a sweep asks for nothing; bound max(20, 2*tables+10) sweeps, and never five sweeps in a row that move players without changing how full any table or the queue is; histories contain stretches of 1..40 hands without a bust-out; non-trivial = settling run with at least one move; classes sweeps-to-settle:N = distribution of the number of sweeps needed",
 		Stages: []stage{grid, mh(120000, 4000000)}}
 }
